@@ -615,7 +615,8 @@ func (core JApiCore) addTags(d *directive.Directive) *jerr.JApiError {
 	}
 
 	for _, name := range d.UnnamedParameter() {
-		if !core.catalog.Tags.Has(catalog.TagName(name)) {
+		// The automatic tag of a path doesn't count: a tag has to be declared.
+		if _, ok := core.declaredTags[name]; !ok {
 			return d.KeywordError(fmt.Sprintf("%s %q", jerr.TagNotFound, name))
 		}
 	}
